@@ -11,6 +11,18 @@ claimed = {
    'Seeded deterministic simulation of whole transfers (real client filter, real relays, real trz/tsz mains inside one process under a fake clock and a seeded scheduler) over generated source trees, configuration vectors, transport segmentations/latencies and schedules; liveness (both sides report success on a fault-free link) and safety (file-system oracle: every reported name exists with exactly the source bytes and structure) are checked on every run. Sampling, not proof: the space is a product of unbounded inputs.',
    'Both ends are built from the same tree; pty layer, zenity dialogs and the fork re-exec itself are outside the simulation (DESIGN.md §5).',
    'deterministic simulation: synctest fake clock + AST-inserted gated yields + seeded scheduler/link/fault tape; FS and report oracles', '§4 C01'),
+ 'C07': ('exploration',
+   'Seeded deterministic simulation of receives without -y into adversarially pre-populated destinations (colliding files and directories, name.N series with gaps, a name at the 255-byte limit, all 1001 candidate names taken, repeated transfer of the same sources through one filter), both receiving roles, protocols 1-4; oracle: before/after snapshot of the destination by inode, size, SHA-256 and mtime - nothing pre-existing changed, no new entry inside a pre-existing directory, every colliding source landed under one fresh name, reported names = used names, and failure (not reuse) when no fresh name exists.',
+   'Same-tree peers; collisions are created before the transfer starts (concurrent creation of a colliding name by a third party during the transfer is not modelled).',
+   'deterministic simulation (seeded schedules/segmentation) + file-system snapshot oracle', '§4 C07'),
+ 'C08': ('exploration',
+   'Seeded deterministic simulation of -y transfers over destination content related to the source by relative length x first differing offset (on, just before, just after comparison-block boundaries, several blocks), protocols 2/3/4, both directions, base64/binary; the comparison block size is a per-run tuning knob (1 KiB-64 KiB) plus a batch at the shipped 10 MiB with 20-30 MiB files; oracle: destination bytes = source bytes after success, bystander untouched, and the remaining size the sender announces never implies skipping more than the longest common prefix of source and old destination.',
+   'Same-tree peers. The knob is set through a var that exists only in the instrumented copy (const -> var rewrite).',
+   'deterministic simulation + FS oracle + wire monitor (announced sizes vs longest common prefix)', '§4 C08'),
+ 'C15': ('exploration',
+   'Component world: real archive reader feeding the real archive writer with independent tape-chosen read sizes and write segmentations, every single cut position for streams of at most 200 bytes, sources shrunk or grown between scan and read; system world: directories sent as one archive stream between the real client and real trz/tsz mains, including 150-300 entry trees, with the open-descriptor count of the process sampled at every quiescent point of the schedule (GC disabled so finalizers cannot hide a leak). Oracles: reconstructed tree = source tree, bytes produced = announced size, shrink reported as error, descriptors do not grow with the entry count.',
+   'All simulated parties share one OS process, so descriptor counts are for client+server together; GC is disabled during a run on purpose.',
+   'deterministic simulation (component + whole-system) with segmentation enumeration for short streams and a descriptor monitor', '§4 C15'),
 }
 pending_reason = 'check not built yet in this session (deterministic simulation planned, see DESIGN.md §4); not claimed'
 checks = []
